@@ -124,7 +124,7 @@ func (zeroChooser) Int(int, string) int { return 0 }
 var (
 	poolString = []string{"test", "ap", "unavailable", "error_action", "Tech", "a b", "alpha", ""}
 	poolID     = []string{"1", "2", "simple", "complex", "not-found", "full-data", "partial-data", "minimal-data", "minimal", "experienced", "non-existent", "null-test", "abc-3"}
-	poolInt    = []string{"1", "0", "2", "3", "10", "60", "100", "-1"}
+	poolInt    = []string{"1", "0", "2", "3", "10", "60", "100"} // no negative values: the mock allocates slices of that size
 	poolFloat  = []string{"1.5", "0", "100", "2.25", "50.0", "-3.5"}
 )
 
@@ -209,26 +209,14 @@ func isLeafType(w *world, t *ast.Type) bool {
 	return d == nil || d.Kind == ast.Scalar || d.Kind == ast.Enum
 }
 
-// selectable returns the allowed, available fields of def; leavesOnly restricts to
+// selectable returns the allowed fields of def the mock can answer; leavesOnly restricts to
 // scalar/enum results.
-func (g *opGen) selectable(def *ast.Definition, leavesOnly bool, anc ancestry) []*ast.FieldDefinition {
+func (g *opGen) selectable(def *ast.Definition, leavesOnly bool) []*ast.FieldDefinition {
 	var out []*ast.FieldDefinition
 	for _, f := range g.w.allowed[def.Name] {
 		if u := g.w.units[def.Name+"."+f.Name]; u != nil {
-			// steer away from recorded findings that depend on where a resolver is selected
-			if u.Kind == unitResolver && anc.nestedList {
-				g.excluded[findNestedListParent] = true
-				continue
-			}
-			if u.Kind == unitResolver && anc.abstract {
-				g.excluded[findResolverInUnion] = true
-				continue
-			}
-			if ok, finding := g.usable(u.Key); !ok {
-				if finding != "" {
-					g.excluded[finding] = true
-				}
-				continue
+			if ok, finding := g.usable(u.Key); !ok && finding == "" {
+				continue // the mock does not implement it / probe broken for an unrecorded reason
 			}
 		}
 		if leavesOnly && !isLeafType(g.w, f.Type) {
@@ -237,6 +225,29 @@ func (g *opGen) selectable(def *ast.Definition, leavesOnly bool, anc ancestry) [
 		out = append(out, f)
 	}
 	return out
+}
+
+// steerAway reports (and counts) that the chosen field falls into a recorded finding class
+// that depends only on which field is selected where; the selection is then skipped so that
+// the search continues behind the finding (its directed probe keeps watching it).
+func (g *opGen) steerAway(def *ast.Definition, f *ast.FieldDefinition, anc ancestry) bool {
+	u := g.w.units[def.Name+"."+f.Name]
+	if u == nil {
+		return false
+	}
+	switch {
+	case u.Kind == unitResolver && anc.nestedList:
+		g.excluded[findNestedListParent] = true
+		return true
+	case u.Kind == unitResolver && anc.abstract:
+		g.excluded[findResolverInUnion] = true
+		return true
+	}
+	if ok, finding := g.usable(u.Key); !ok {
+		g.excluded[finding] = true
+		return true
+	}
+	return false
 }
 
 // used tracks response keys of one selection-set scope (including nested inline fragments):
@@ -257,10 +268,12 @@ func (g *opGen) selSet(def *ast.Definition, depth int, u used, anc ancestry) []*
 	if len(out) == 0 {
 		if def == g.w.schema.Query || def == g.w.schema.Mutation {
 			// a root selection must fetch something
-			fs := g.selectable(def, false, anc)
-			f := fs[g.c.Int(len(fs), "rootfield")]
-			if k := g.field(def, f, depth, u, anc); k != nil {
-				return []*node{k}
+			fs := g.selectable(def, false)
+			for try := 0; try < 4; try++ {
+				f := fs[g.c.Int(len(fs), "rootfield")]
+				if k := g.field(def, f, depth, u, anc); k != nil {
+					return []*node{k}
+				}
 			}
 		}
 		if _, ok := u["__typename"]; !ok {
@@ -289,7 +302,7 @@ func (g *opGen) selection(def *ast.Definition, depth int, u used, anc ancestry) 
 		kids := g.selSet(pt, depth, u, anc) // same depth and same key scope: a fragment does not nest the response
 		return &node{Frag: true, On: pt.Name, Kids: kids, scope: pt.Name}
 	}
-	fs := g.selectable(def, depth >= g.maxDepth, anc)
+	fs := g.selectable(def, depth >= g.maxDepth)
 	if len(fs) == 0 {
 		return nil
 	}
@@ -302,6 +315,9 @@ func (g *opGen) selection(def *ast.Definition, depth int, u used, anc ancestry) 
 }
 
 func (g *opGen) field(def *ast.Definition, f *ast.FieldDefinition, depth int, u used, anc ancestry) *node {
+	if g.steerAway(def, f, anc) {
+		return nil
+	}
 	k := &node{Name: f.Name, Args: genArgs(g.c, g.w, f)}
 	sig := k.Name + k.Args
 	if prev, ok := u[f.Name]; ok {
